@@ -247,7 +247,10 @@ class Impl:
             (d / (pipe['name'] + '.yaml')).write_text(render_pipe(pipe))
         return d
 
-    def run(self, prog, keep=False):
+    def run(self, prog, keep=False, reuse=1):
+        """reuse >= 2: build ONE Pipeline object the way pipelinerunner.run does and run it `reuse` times,
+        each time on a fresh, equal context; the observation is that of the last run (a Pipeline instance is
+        re-usable API: every run of it must behave like the first)."""
         d = self.write(prog)
         run = prog['run']
         self.vprobe.TRACE.clear()
@@ -267,7 +270,30 @@ class Impl:
         root_name = str(d / run['name'])
         ret = None
         try:
-            ret = self.pr.run(root_name, **kwargs)
+            if reuse >= 2:
+                import copy
+                from pypyr.pipeline import Pipeline
+                pipeline, args = Pipeline.new_pipe_and_args(
+                    name=root_name, context_args=kwargs.get('args_in'), parse_input=kwargs.get('parse_args'),
+                    dict_in=kwargs.get('dict_in'), groups=kwargs.get('groups'),
+                    success_group=kwargs.get('success_group'), failure_group=kwargs.get('failure_group'))
+                rnd0 = list(self.rnd)
+                for k in range(reuse):
+                    self.vprobe.TRACE.clear()
+                    self.sleeps, self.last_ctx, self.rnd = [], None, list(rnd0)
+                    context = self.pr.Context(copy.deepcopy(args)) if args else self.pr.Context()
+                    if k < reuse - 1:
+                        try:
+                            pipeline.run(context)
+                        except RecursionError:
+                            raise
+                        except Exception:  # noqa
+                            pass
+                    else:
+                        pipeline.run(context)
+                        ret = context
+            else:
+                ret = self.pr.run(root_name, **kwargs)
             outcome = 'ok'
         except RecursionError:
             outcome = 'outOfFuel'
